@@ -1,2 +1,12 @@
-import Acv.Model.Graph
-import Acv.Model.Path
+-- Root of the `Acv` library: models, lemmas and the property theorems (one file per property).
+import Acv.Props.C01
+import Acv.Props.C02
+import Acv.Props.C04
+import Acv.Props.C09
+import Acv.Props.C11
+import Acv.Props.C12
+import Acv.Props.C13
+import Acv.Props.C14
+import Acv.Props.C16
+import Acv.Props.C17
+import Acv.Driver.Ops
